@@ -384,8 +384,8 @@ def jobs(tier):
     quick = tier == "quick"
     J = []
     A = lambda mk, **kw: J.append(Job("A", mk, max_states=kw.pop("max_states", 50000 if quick else 1000000), **kw))
-    B = lambda mk, **kw: J.append(Job("B", mk, cycles=kw.pop("cycles", 3000 if quick else 30000),
-                                      runs=1 if quick else 3, **kw))
+    B = lambda mk, **kw: J.append(Job("B", mk, cycles=kw.pop("cycles", 3000 if quick else 12000),
+                                      runs=1 if quick else 2, **kw))
     # ---- AXILite2Wishbone
     A(lambda: mk_axl2wb(8, 2, base=1, small=True))
     A(lambda: mk_axl2wb(16, 3, base=0, small=True))
